@@ -285,7 +285,7 @@ class Tx(BaseTx):
         else:
             refs: set[tuple[bytes, int]] = set()
             for tx_in in self.txs_in:
-                if tx_in.previous_hash == ZERO32:
+                if tx_in.is_coinbase():
                     raise ValidationFailureError("prevout is null")
                 pair = (tx_in.previous_hash, tx_in.previous_index)
                 if pair in refs:
@@ -410,7 +410,7 @@ class Tx(BaseTx):
             tx_lookup[h] = the_tx
 
         for idx, tx_in in enumerate(self.txs_in):
-            if tx_in.previous_hash == ZERO32:
+            if tx_in.is_coinbase():
                 continue
             txs_out = tx_lookup[tx_in.previous_hash].txs_out
             if tx_in.previous_index > len(txs_out):
